@@ -297,21 +297,35 @@ pub fn info(tier: Tier, prop: &'static str, backend: Backend) -> CheckInfo {
         id: prop,
         level: "model_checking",
         rule: format!(
-            "Bounded exhaustive enumeration, no sampling: every balanced program of A(len<={}) over +-<>.,[] , every token \
-             sequence of B(<={} idiom tokens), every statement-language program S(1,{}){} and the repository corpus K; for each \
-             program and width the input choice tree is explored on demand (alphabet {{0,1,2,128,255}} then end of input, depth {}); \
-             every node whose canonical run halts within {} steps is executed on backend `{}` at levels {:?} through execute_limited \
-             (screen) and execute, and the shared I/O log is compared action by action with the canonical trace. states = explored \
-             choice-tree nodes (program,width,script); transitions = I/O actions compared; a case is non-trivial if its canonical \
-             run performs I/O or executes a bracket; distinct = distinct (program,width,script) among those.",
+            "Bounded exhaustive enumeration, no sampling. Program spaces: R (every program that ever exposed a defect), A (every \
+             balanced string over +-<>.,[] of length <= {}), B (every sequence of <= {} idiom tokens), S (statement language over three \
+             variables: x+=1, x-=1, x=0, out, in, x+=y destructive/preserving, x=y, x+=2y, x+=3y, x-=y, x+=y*z, x+=y*y; every body of \
+             <= {} statements inside 4 loop shapes, 3 initialisations){}, W (k-cell rotations with per-cell forms copy/x2/x3/negate/ \
+             shared/shared+const/+const/div3/product/wide constant: default, every single deviation, uniform and alternating \
+             assignments{}), V (an input byte shifted left by 4k bits, k up to 16, used as loop/branch condition; optimising \
+             configurations only, accelerated reference) and the repository corpus K. For each program and width the input choice tree \
+             is explored on demand (alphabet {{0,1,2,128,255}} then end of input, depth {}; depth {} for S; fixed scripts of distinct \
+             non-zero bytes for W, V, R and K). Every node whose canonical run halts within {} steps is executed on backend `{}` at \
+             levels {:?} through execute_limited (screen, 4*steps+64) and then execute; the shared I/O log is compared action by action \
+             with the canonical trace. A screen failure is escalated (x16 budget) and then observed through the unlimited run in a \
+             forked child under a 2 s watchdog (at most {} wall-clock confirmations per worker, afterwards the escalated budget run is \
+             the evidence). states = explored choice-tree nodes (program,width,script); transitions = I/O actions compared; a case is \
+             non-trivial if its canonical run performs I/O or executes a bracket; distinct = distinct (program,width,script) among those.",
             p.a_len,
             p.b_tokens,
-            p.s_k,
-            if p.s_inner > 0 { format!(" and S(2,{}) with one inner loop", p.s_inner) } else { String::new() },
+            p.s_k.min(2),
+            match (p.s_k >= 3, p.s_inner > 0) {
+                (true, true) => ", three-statement bodies at widths 8 and 64 with a depth-1 input tree, and bodies of <= 2 pieces containing one inner loop around <= 1 statement",
+                (true, false) => ", three-statement bodies at widths 8 and 64 with a depth-1 input tree",
+                _ => "",
+            },
+            if p.w_full { ", every pair of deviations, k in {2,3,5,8,10..16}" } else { ", k in {2,3,11,12,13,14}" },
             p.depth,
+            p.s_depth,
             p.step_cap,
             backend.name(),
-            levels(backend)
+            levels(backend),
+            diff::MAX_HANG_CONFIRMATIONS
         ),
         assumptions: vec![
             "canonical reference interpreter refbf (independent implementation, /verif/mc/mc/src/refbf.rs) is the specification".into(),
